@@ -1,17 +1,23 @@
 # /verif/Makefile - builds the Coq development (full .vo build), the extraction and the model driver.
 COQFILES := $(wildcard coq/*.v)
 
-.PHONY: setup coq model clean
-setup: coq model
+.PHONY: setup proofs model clean prebuild
+setup: model proofs prebuild
 
-coq:
-	cd coq && coq_makefile -f _CoqProject -o Makefile > /dev/null && $(MAKE) -j16 --no-print-directory
-
-model: coq
+# the executable model and its extraction do not depend on any proof file
+model:
+	cd coq && coq_makefile -f _CoqProject -o Makefile > /dev/null && $(MAKE) -j16 --no-print-directory Extract.vo
 	mkdir -p build
 	cp coq/msm_model.ml coq/msm_model.mli harness/model_main.ml build/
 	cd build && ocamlfind ocamlopt -w -a -O2 msm_model.mli msm_model.ml model_main.ml -o model_main 2>&1 | grep -v "options -O2 is only relevant" || true
 	test -x build/model_main
+
+# every .vo (full build, no -vos); -k so that one broken proof file does not hide the others
+proofs: model
+	cd coq && $(MAKE) -k -j16 --no-print-directory
+
+prebuild: model
+	./check --prebuild
 
 clean:
 	rm -rf build coq/*.vo coq/*.vok coq/*.vos coq/*.glob coq/.*.aux coq/Makefile coq/Makefile.conf coq/.Makefile.d coq/msm_model.ml coq/msm_model.mli
